@@ -30,7 +30,7 @@
 (* one chunk and writes its verdicts, so the workers run in parallel and   *)
 (* every record gets a verdict (TLC never stops at a failing record).      *)
 (***************************************************************************)
-EXTENDS StatsBig, SequencesExt, Json, IOUtils
+EXTENDS StatsBig, Json, IOUtils
 
 Recs == ndJsonDeserialize(IOEnv.STATS_RECS)
 Chunks == {Recs[i].chunk : i \in DOMAIN Recs}
@@ -69,7 +69,8 @@ JudgeBlocking(r) ==
 
 -----------------------------------------------------------------------------
 KeptRows(data, mask) ==
-  FoldLeft(LAMBDA acc, i : IF mask[i] THEN Append(acc, data[i]) ELSE acc, << >>, [i \in 1..Len(data) |-> i])
+  LET idx == SelectSeq([i \in 1..Len(data) |-> i], LAMBDA i : mask[i])
+  IN  [k \in 1..Len(idx) |-> data[idx[k]]]
 
 JudgeOutliers(r) ==
   LET x   == [i \in 1..Len(r.data) |-> r.data[i][r.col]]
